@@ -240,21 +240,27 @@ def run(ctx):
         f = ctx.fn(rule, name="evaluate_transition", self_adt=PP + "::PingPongContinuation")
         g = ctx.guards(f)
         key = "%s:%s:verify_next-on-stored-state" % (rule, f.id)
+        # two equivalent idioms: `verify_next(..).map_err(..).and_then(|transition| match ..)`  or
+        #                        `let transition = verify_next(..).map_err(..)?; match transition ..`
+        vn = Call("map_err", Call("verify_next", Arg(2), Arg(1), Arg(3), Arg(4)))
         rds = [rd for rd in g.retdefs if rd.kind == "call"]
         good = False
         clos = None
-        if len(rds) == 1 and len(g.accept_defs(("err",))) == 1:
-            e = rds[0].expr
-            if Call("and_then", Call("map_err", Call("verify_next", Arg(2), Arg(1), Arg(3), Arg(4))), Any())(e):
-                good = True
-                clos = e[2][1]
+        body_fn, tr, enc_src = None, None, None
+        if len(rds) == 1 and len(g.accept_defs(("err",))) == 1 and Call("and_then", vn, Any())(rds[0].expr):
+            good = True
+            clos = rds[0].expr[2][1]
+            if clos[0] == "closure":
+                body_fn, tr = ctx.prog.by_did.get(clos[3]), Arg(2)
+        elif ctx.require_try_call(rule, f, vn, desc="verify_next(ctx, stored state, stored message).map_err(..)?", key=key + ":try") is not None:
+            good = True
+            body_fn, tr = f, Try(vn)
         if good:
-            ctx.ok(rule, key, "evaluate_transition = verify_next(ctx, state.clone(), message.clone()).map_err(..).and_then(closure)", loc=f.loc)
+            ctx.ok(rule, key, "evaluate_transition evaluates verify_next(ctx, state.clone(), message.clone()) and maps the transition", loc=f.loc)
         else:
-            ctx.bad(rule, key, "evaluate_transition does not return verify_next(ctx, stored state, stored message) mapped through the transition closure: %s" % [fmt(r.expr)[:200] for r in rds], loc=f.loc)
-        if clos is not None and clos[0] == "closure":
-            cf = ctx.prog.by_did.get(clos[3])
-            tr = Arg(2)
+            ctx.bad(rule, key, "evaluate_transition does not return verify_next(ctx, stored state, stored message) mapped through the transition table: %s" % [fmt(r.expr)[:200] for r in rds], loc=f.loc)
+        if body_fn is not None:
+            cf = body_fn
             msgbytes = lambda e: True
             rows = [("Continue->Continued",
                      Agg("Result::Ok", Agg("PingPongState::Continued", Agg("Continued",
@@ -268,11 +274,17 @@ def run(ctx):
             check_table(ctx, rule, cf, rows)
             # the outbound verifier message bytes are the encoding of the stored message
             key = "%s:%s:outbound-message-is-stored-message" % (rule, f.id)
-            caps = clos[2]
-            if len(caps) == 1 and Try(ThroughCasts(Mentions(Call("get_encoded", Arg(4)))))(caps[0]):
-                ctx.ok(rule, key, "closure captures get_encoded(current_verifier_message)?", loc=f.loc)
+            if clos is not None and clos[0] == "closure":
+                caps = clos[2]
+                okm = len(caps) == 1 and Try(ThroughCasts(Mentions(Call("get_encoded", Arg(4)))))(caps[0])
             else:
-                ctx.bad(rule, key, "outbound verifier message is not the encoding of the stored verifier message: %s" % [fmt(c)[:120] for c in caps], loc=f.loc)
+                gg = ctx.guards(cf)
+                outs = [x for rd in gg.retdefs if rd.expr is not None for x in walk(rd.expr) if Agg("PingPongMessage::Continue")(x) or Agg("PingPongMessage::Finish")(x)]
+                okm = bool(outs) and all(Mentions(Try(ThroughCasts(Mentions(Call("get_encoded", Arg(4))))))(x) or Mentions(Call("get_encoded", Arg(4)))(x) for x in outs)
+            if okm:
+                ctx.ok(rule, key, "the outbound verifier message is get_encoded(current_verifier_message)?", loc=f.loc)
+            else:
+                ctx.bad(rule, key, "outbound verifier message is not the encoding of the stored verifier message", loc=f.loc)
     except Skip:
         pass
     ctx.floor(rule, 6)
@@ -288,7 +300,7 @@ def run(ctx):
                     ((s.rv.path.endswith("PingPongContinuationInner") and s.rv.vname == "OutputShare") or
                      (s.rv.path.endswith("PingPongState") and s.rv.vname in ("Finished", "FinishedWithOutbound"))):
                 sites.append((f, bi, s))
-    allowed = {("continued", "OutputShare"), ("evaluate", "Finished"), ("{closure}", "FinishedWithOutbound")}
+    allowed = {("continued", "OutputShare"), ("evaluate", "Finished"), ("{closure}", "FinishedWithOutbound"), ("evaluate_transition", "FinishedWithOutbound")}
     for f, bi, s in sites:
         key = "%s:%s:%s" % (rule, f.id, s.rv.vname)
         imp = ctx.prog.impl_by_did.get(f.impl) if f.impl is not None else None
